@@ -415,4 +415,5 @@ func TestC18(t *testing.T) {
 	if _, err := f.Process(ctx, ev); err != nil || s2.n != 1 {
 		run.Violation("history-pattern:rotate", fmt.Sprintf("after Rotate the new signer must be used (calls=%d err=%v)", s2.n, err), nil)
 	}
+	c18Histories(run, r)
 }
